@@ -51,6 +51,11 @@ theorem C04_il_increasing (h1 : InE v1 Dp d eps nu rhol rhos Cv) (h2 : InE v2 Dp
 
 end
 
+/-- the carrier-liquid gradient falls strictly with pipe diameter on E -/
+theorem C04_il_decreasing_in_Dp {vls D1 D2 d eps nu rhol rhos Cv : ℝ} (h1 : InE vls D1 d eps nu rhol rhos Cv) (h2 : InE vls D2 d eps nu rhol rhos Cv)
+    (h12 : D1 < D2) : homogeneous.fluid_head_loss vls D2 eps nu rhol < homogeneous.fluid_head_loss vls D1 eps nu rhol :=
+  il_strictAnti_Dp h1 h2 h12
+
 /-! ### settling velocities -/
 
 /-- hindered settling is positive, below the free settling velocity and falls with concentration (0 < Cvs < 1) -/
